@@ -332,3 +332,30 @@ def run(ck):
                   "%s removes bytes from the buffer between two feeds of the same message: the size limit, measured on bytes.size(), then "
                   "counts per read instead of per request" % fn_.base.rsplit("::", 1)[1])
     ck.require(nsh >= 1, "no shrinking write to ArrayStreamBuf::bytes found (reset() vanished?)")
+
+    # ---------------- R6: what was received is parsed before more is read ----------------
+    ck.rule("C14-R6", "C path automaton",
+            "in Transport::handleIncoming what a recv() / SSL_read() delivered is handed to the handler (onInput) before the next read is "
+            "issued: the receive buffer has a fixed size (Const::MaxBuffer) and is reused for every read, so bytes that are only "
+            "accumulated fill it up, the next read is asked for zero bytes and its zero result is taken for the end of the connection -- a "
+            "request larger than one buffer would be dropped without 200 or 413", 1)
+    hi = lib.single(prog, "Pistache::Tcp::Transport::handleIncoming")
+    summ6 = lib.Summaries(prog)
+    is_read = lambda e: e["k"] == "call" and (e.get("callee") or "") in ("recv", "SSL_read", "read", "recvfrom", "recvmsg")
+    hands_on = summ6.lift_must(lambda e: e["k"] == "call" and (e.get("callee") or "") == "Pistache::Tcp::Handler::onInput", "handler-onInput")
+    reads = [e for e in hi.events("call") if is_read(e)]
+    ck.require(reads, "no read call found in Transport::handleIncoming")
+    again = []
+
+    def st6(st, ev):
+        if hands_on(ev):
+            return None
+        if is_read(ev):
+            again.append(ev)
+            return None
+        return st
+    for r_ in reads:
+        cfg.run_automaton(hi, 0, st6, start=r_.block, start_idx=r_.idx + 1)
+    ck.ob("C14-R6", "handleIncoming/parsed-before-next-read", not again, (again[0].loc if again else reads[0].loc), hi,
+          "every way from one read to the next passes handler_->onInput" if not again else
+          "the read at line %s can be reached again without the bytes of the previous one having been handed to onInput" % again[0].get("l"))
